@@ -1,0 +1,63 @@
+//! Verification-only named points (`cfg(folo_verif)`) between the steps of a local-store write,
+//! used by the crash-point and two-writer harness in `/verif`. With the cfg off this module does
+//! not exist and no call site is compiled.
+//!
+//! A point does one of two things:
+//!
+//! * if the harness installed a callback with [`install`], the callback is called with the point
+//!   name (the harness uses it as a *gate* to serialize two writers, and as an observation point);
+//! * otherwise, if the environment variable `FOLO_VERIF_CRASH_AT` is `<name>` or `<name>:<n>`, the
+//!   process aborts at the `n`-th (1-based, default 1) time that point is reached — a process crash
+//!   between two steps of the write.
+
+#![allow(
+    missing_docs,
+    clippy::missing_panics_doc,
+    clippy::type_complexity,
+    reason = "verification-only"
+)]
+
+use std::sync::OnceLock;
+use std::sync::atomic::{AtomicU64, Ordering};
+
+/// Every point name in the order a successful `put` reaches them (`put_overwrite` skips
+/// `after-exists-check`).
+pub const POINTS: &[&str] = &[
+    "put-enter",
+    "after-mkdir",
+    "after-exists-check",
+    "after-temp-create",
+    "after-temp-write",
+    "after-flush",
+    "after-rename",
+    "put-return",
+];
+
+static CALLBACK: OnceLock<Box<dyn Fn(&'static str) + Send + Sync>> = OnceLock::new();
+static CRASH_AT: OnceLock<Option<(String, u64)>> = OnceLock::new();
+static CRASH_HITS: AtomicU64 = AtomicU64::new(0);
+
+/// Installs the callback; the first installation wins for the lifetime of the process.
+pub fn install(callback: Box<dyn Fn(&'static str) + Send + Sync>) {
+    let _ = CALLBACK.set(callback);
+}
+
+pub(crate) fn point(name: &'static str) {
+    if let Some(callback) = CALLBACK.get() {
+        callback(name);
+        return;
+    }
+    let crash_at = CRASH_AT.get_or_init(|| {
+        let spec = std::env::var("FOLO_VERIF_CRASH_AT").ok()?;
+        Some(match spec.rsplit_once(':') {
+            Some((point, n)) => (point.to_owned(), n.parse().unwrap_or(1)),
+            None => (spec, 1),
+        })
+    });
+    if let Some((wanted, occurrence)) = crash_at
+        && wanted == name
+        && CRASH_HITS.fetch_add(1, Ordering::SeqCst).wrapping_add(1) == *occurrence
+    {
+        std::process::abort();
+    }
+}
